@@ -190,6 +190,8 @@ def run(ctx):
                 nreg += 1
                 if r:
                     res['failures'].append(r)
+    res['failures'] += fixed_family_failures()[:3]
+    dist['fixed_family'] = len(FIXED_FAMILY)
     # long opaque regions with `;` inside, many statements (oracle only): thresholds on token / input size
     for kind, text, span in gens.long_cases(ctx.quick()):
         f = long_split_failure(kind, text, span)
@@ -232,9 +234,45 @@ def run_oracle_only(ctx):
     return {'failures': fails, 'evaluations': n, 'distinct_nontrivial': 0, 'rule': 'oracle only', 'samples': []}
 
 
+# scripts whose structure is known by construction and that no generator produces: the keywords BEGIN / DECLARE in places
+# where they open nothing, a statement starting with BEGIN / DECLARE directly behind a CREATE on the same line, literals that
+# start with a doubled quote, a comment opener inside a block comment with a stray closer inside a later region.  All of
+# them are split correctly by the unchanged library.
+FIXED_FAMILY = [
+    ("ALTER TABLESPACE users BEGIN BACKUP; select 2", 2),
+    ("ALTER TABLE t ADD begin int; select 2", 2),
+    ("ALTER TABLE t RENAME COLUMN a TO declare; select 2; select 3", 3),
+    ("CREATE TABLE t (a int); BEGIN; select 1; COMMIT;", 4),
+    ("CREATE INDEX i ON t (a);\tBEGIN TRANSACTION; select 1; COMMIT;", 4),
+    ("CREATE TABLE t (a int); -- c\nDECLARE c CURSOR FOR select 1; select 2", 3),
+    ("select '''x'; select 2", 2),
+    ("select '''' as q; select ''''; select 3", 3),
+    ('select """x" from t; select """"; select 3', 3),
+    ("select 1 /* a /* b */; select '*/'; select 3", 3),
+    ("select 1 /* a /* b */; select 2 -- */\n; select 3", 3),
+    ('select 1 /* a /* b */; select "*/" from t; select 3', 3),
+    ("#\n# banner\n#\nselect 1;\nselect 2;\n", 2),
+    ("select 5 #\n 3; select 2", 2),
+]
+
+
+def fixed_family_failures():
+    import sqlparse
+    out = []
+    for text, k in FIXED_FAMILY:
+        try:
+            n = len(sqlparse.split(text))
+        except Exception as e:  # noqa
+            n = 'exception ' + type(e).__name__
+        if n != k:
+            out.append({'input': [ord(c) for c in text], 'kind': 'k_statements_fixed', 'written': k, 'returned': n,
+                        'observed': 'split() returns %s statements, %d are written: %r' % (n, k, text)})
+    return out
+
+
 def search(ctx, hints):
     import time
-    fails = []
+    fails = fixed_family_failures()[:1]
     tried = 0
     t0 = time.time()
     known = _known()
